@@ -11,3 +11,12 @@ func encMatches(kind int, out string, want []*rec) bool {
 	}
 	return out == exp
 }
+
+// encMatchesAnyOrder: as encMatches, the records may come in any order (massive mode).
+func encMatchesAnyOrder(kind int, out string, want []*rec) bool {
+	var blocks []string
+	for _, r := range want {
+		blocks = append(blocks, recText(r)+"\n")
+	}
+	return c10Perm(out, blocks)
+}
